@@ -61,6 +61,9 @@ pub struct Log {
     /// per-call pacing of the virtual clock: the k-th sampler call of the current public call
     /// costs `tick_plan[k]` instead of `tick_sample` (beyond the plan: `tick_sample`)
     pub tick_plan: Option<Vec<u64>>,
+    /// callback latency in *real* time: the first `.1` validity queries of every public call
+    /// sleep `.0` microseconds (results must not depend on how long user callbacks take)
+    pub slow_valid: Option<(u64, u64)>,
 }
 pub type LogRc = Rc<RefCell<Log>>;
 
@@ -85,6 +88,7 @@ impl Log {
             samples_in_call: 0,
             sample_budget: None,
             tick_plan: None,
+            slow_valid: None,
         }))
     }
     /// cost of the sampler call that has just been counted by `on_sampler_begin`
@@ -402,7 +406,14 @@ impl<K: Kit> StateValidityChecker<K::S> for MonChecker<K> {
         let trip = l.n_valid_call > l.budget;
         l.push(Ev::Valid(flat, r));
         let t = l.tick_valid;
+        let nap = match l.slow_valid {
+            Some((us, n)) if l.n_valid_call <= n => us,
+            _ => 0,
+        };
         drop(l);
+        if nap > 0 {
+            std::thread::sleep(std::time::Duration::from_micros(nap));
+        }
         oxmpl::verif::advance(t);
         if trip {
             std::panic::panic_any(BudgetTrip);
